@@ -44,10 +44,16 @@ fn agg_tag(text: &str, r: &BatchResult) -> String {
 // ---------------------------------------------------------------------------------------------------------------
 // typed stream: table, statements as data, reference
 
-pub const C04_DEF: &str = "CREATE TABLE t(line = '^([a-z]+)?;(-?[0-9]+)?;(-?[0-9]+)?;([^;]+)?;(?:~|([^;]*));(true|false)?;([0-9]+:[0-9]{2}:[0-9]{2})?;(?:([0-9]{4})-([0-9]{2})-([0-9]{2}) ([0-9]{2}):([0-9]{2}):([0-9]{2}))?$', line[1] => k TEXT, line[2] => v INT, line[3] => w INT, line[4] => r REAL, line[5] => s TEXT, line[6] => b BOOLEAN, line[7] => iv INTERVAL, line[8], line[9], line[10], line[11], line[12], line[13] => ts TIMESTAMP);";
+/// Column `iv` takes `h:m:s` texts whose parts may carry a sign (`ValueType::parse` reads each part with `i64::from_str`):
+/// whole seconds, NEGATIVE totals included. Column `t2` is a second TIMESTAMP with a MICROSECONDS fraction (its field is
+/// optional, so the older 8-field lines still match); the EXPRESSION `(t2 - ts)` is the source of SUB-SECOND intervals of
+/// either sign (finding D74: AVG over INTERVAL divided seconds and nanoseconds apart) — it is used like a column (`D`).
+pub const C04_DEF: &str = "CREATE TABLE t(line = '^([a-z]+)?;(-?[0-9]+)?;(-?[0-9]+)?;([^;]+)?;(?:~|([^;]*));(true|false)?;(-?[0-9]+:-?[0-9]{2}:-?[0-9]{2})?;(?:([0-9]{4})-([0-9]{2})-([0-9]{2}) ([0-9]{2}):([0-9]{2}):([0-9]{2}))?(?:;(?:([0-9]{4})-([0-9]{2})-([0-9]{2}) ([0-9]{2}):([0-9]{2}):([0-9]{2})[.]([0-9]{6}))?)?$', line[1] => k TEXT, line[2] => v INT, line[3] => w INT, line[4] => r REAL, line[5] => s TEXT, line[6] => b BOOLEAN, line[7] => iv INTERVAL, line[8], line[9], line[10], line[11], line[12], line[13] => ts TIMESTAMP, line[14], line[15], line[16], line[17], line[18], line[19], line[20] => t2 TIMESTAMP MICROSECONDS);";
 
-const COLS: &[&str] = &["k", "v", "w", "r", "s", "b", "iv", "ts"];
-const NCOLS: usize = 8;
+/// SQL text of each "column" of the typed statements: the nine table columns and the derived interval `(t2 - ts)`
+const COLS: &[&str] = &["k", "v", "w", "r", "s", "b", "iv", "ts", "t2", "(t2 - ts)"];
+/// number of TABLE columns (fields of a line); the reference rows carry one more value, `D`
+const NCOLS: usize = 9;
 const K: usize = 0;
 const V: usize = 1;
 const W: usize = 2;
@@ -56,6 +62,28 @@ const S: usize = 4;
 const B: usize = 5;
 const IV: usize = 6;
 const TS: usize = 7;
+const T2: usize = 8;
+/// the derived INTERVAL `t2 - ts` (NULL when either is NULL): sub-second, of either sign
+const D: usize = 9;
+
+/// total nanoseconds of an interval, exactly (chrono's accessors only: `num_seconds` truncates towards zero and
+/// `subsec_nanos` carries the same sign, so the sum is the signed total)
+pub fn iv_ns(x: &sqlgrep::model::IntervalType) -> i128 { x.num_seconds() as i128 * 1_000_000_000 + x.subsec_nanos() as i128 }
+/// the interval of `ns` total nanoseconds (floor seconds + non-negative nanoseconds, chrono's own representation)
+pub fn iv_from_ns(ns: i128) -> sqlgrep::model::IntervalType {
+    sqlgrep::model::IntervalType::new(ns.div_euclid(1_000_000_000) as i64, ns.rem_euclid(1_000_000_000) as u32).expect("interval inside chrono's range")
+}
+/// the reference row of an admitted line: the table's columns and the derived `D = t2 - ts`, computed here from the two
+/// instants in integer nanoseconds
+fn with_derived(mut r: Vec<Value>) -> Vec<Value> {
+    let d = match (&r[T2], &r[TS]) {
+        (Value::Timestamp(a), Value::Timestamp(b)) =>
+            Value::Interval(iv_from_ns((a.timestamp() as i128 - b.timestamp() as i128) * 1_000_000_000 + a.timestamp_subsec_nanos() as i128 - b.timestamp_subsec_nanos() as i128)),
+        _ => Value::Null,
+    };
+    r.push(d);
+    r
+}
 
 #[derive(Clone, Debug, PartialEq)]
 enum AggK {
@@ -154,6 +182,16 @@ enum Having {
     Not(Box<Having>),
     /// a bare aggregate as a condition (`HAVING SUM(v)`): not a BOOLEAN (D69) — NULL does not hold, a value is an error
     Bare(AggK),
+    /// an INTERVAL-valued aggregate against an interval constant of the given number of MICROSECONDS (either sign), written
+    /// as a difference of two `make_timestamp` calls (the only way to write a sub-second interval)
+    CmpIv(AggK, &'static str, i64),
+}
+
+/// SQL text of the interval of `us` microseconds (|us| < 60 s)
+fn iv_lit(us: i64) -> String {
+    let a = format!("make_timestamp(2000, 1, 1, 0, 0, {}, {})", us.abs() / 1_000_000, us.abs() % 1_000_000);
+    let z = "make_timestamp(2000, 1, 1, 0, 0, 0, 0)";
+    if us >= 0 { format!("({} - {})", a, z) } else { format!("({} - {})", z, a) }
 }
 
 impl Having {
@@ -164,6 +202,7 @@ impl Having {
             Having::Or(l, r) => format!("({} OR {})", l.sql(), r.sql()),
             Having::Not(x) => format!("(NOT {})", x.sql()),
             Having::Bare(a) => a.sql(),
+            Having::CmpIv(a, op, us) => format!("{} {} {}", a.sql(), op, iv_lit(*us)),
         }
     }
     fn aggs<'a>(&'a self, out: &mut Vec<&'a AggK>) {
@@ -171,7 +210,7 @@ impl Having {
             Having::Cmp(a, _, _) => out.push(a),
             Having::And(l, r) | Having::Or(l, r) => { l.aggs(out); r.aggs(out); }
             Having::Not(x) => x.aggs(out),
-            Having::Bare(a) => out.push(a),
+            Having::Bare(a) | Having::CmpIv(a, _, _) => out.push(a),
         }
     }
     /// the condition on one group: a comparison involving NULL does not hold; `None` = an operand that is evaluated has
@@ -187,6 +226,10 @@ impl Having {
             Having::Or(l, r) => match l.holds(g) { Some(false) => r.holds(g), other => other },
             Having::Not(x) => x.holds(g).map(|b| !b),
             Having::Bare(a) => crate::exprs::truth(&ref_aggregate(a, g)),
+            Having::CmpIv(a, op, us) => Some(match ref_aggregate(a, g) {
+                Value::Interval(x) => { let (x, c) = (iv_ns(&x), *us as i128 * 1000); match *op { ">" => x > c, ">=" => x >= c, "<" => x < c, "<=" => x <= c, "=" => x == c, _ => x != c } }
+                _ => false,
+            }),
         }
     }
 }
@@ -231,22 +274,23 @@ impl TypedQuery {
 fn gen_agg(rng: &mut Rng) -> AggK {
     match rng.below(18) {
         0 => AggK::CountStar,
-        1 | 2 => AggK::Count(*rng.pick(&[K, V, W, R, S, B, IV, TS])),
-        3 | 4 => AggK::CountDistinct(*rng.pick(&[K, V, W, S, IV, TS, V, B])),
-        5 | 6 => AggK::Sum(*rng.pick(&[V, W, R, IV, IV])),
-        7 | 8 => AggK::Min(*rng.pick(&[K, S, TS, B, V, R, IV, W])),
-        9 | 10 => AggK::Max(*rng.pick(&[K, S, TS, B, W, R, IV, V])),
-        11 => AggK::Avg(*rng.pick(&[V, W, R, IV, IV])),
-        12 => AggK::Stddev(*rng.pick(&[V, W, R, V, W, R, V, IV, IV, IV]), rng.chance(1, 2)),
-        13 | 14 => AggK::Percentile(*rng.pick(&[V, K, R, TS, W, IV, S]), *rng.pick(&["0.0", "0.5", "0.99", "1.0"])),
+        // (COUNT takes a column name only, so the derived interval `D` is not counted)
+        1 | 2 => AggK::Count(*rng.pick(&[K, V, W, R, S, B, IV, TS, T2])),
+        3 | 4 => AggK::CountDistinct(*rng.pick(&[K, V, W, S, IV, TS, V, B, T2])),
+        5 | 6 => AggK::Sum(*rng.pick(&[V, W, R, IV, D, D])),
+        7 | 8 => AggK::Min(*rng.pick(&[K, S, TS, B, V, R, IV, W, D, T2])),
+        9 | 10 => AggK::Max(*rng.pick(&[K, S, TS, B, W, R, IV, V, D, T2])),
+        11 => AggK::Avg(*rng.pick(&[V, W, R, IV, D, D])),
+        12 => AggK::Stddev(*rng.pick(&[V, W, R, V, W, R, V, IV, IV, D]), rng.chance(1, 2)),
+        13 | 14 => AggK::Percentile(*rng.pick(&[V, K, R, TS, W, IV, S, D]), *rng.pick(&["0.0", "0.5", "0.99", "1.0"])),
         15 => if rng.chance(1, 2) { AggK::BoolAnd(B) } else { AggK::BoolOr(B) },
-        16 => AggK::ArrayAgg(*rng.pick(&[V, K, TS, B, IV])),
+        16 => AggK::ArrayAgg(*rng.pick(&[V, K, TS, B, IV, D])),
         _ => AggK::StringAgg(*rng.pick(&[K, S]), *rng.pick(&[",", "", "; "])),
     }
 }
 
 pub fn gen_typed_query(rng: &mut Rng) -> TypedQuery {
-    let group: Vec<usize> = match rng.below(6) { 0 => vec![], 1 | 2 => vec![K], 3 => vec![W], 4 => vec![K, W], _ => vec![*rng.pick(&[B, TS, S, IV, R, R])] };
+    let group: Vec<usize> = match rng.below(6) { 0 => vec![], 1 | 2 => vec![K], 3 => vec![W], 4 => vec![K, W], _ => vec![*rng.pick(&[B, TS, S, IV, R, R, D])] };
     let mut items = Vec::new();
     for _ in 0..rng.below(4) + 1 {
         if !group.is_empty() && rng.chance(1, 4) {
@@ -273,7 +317,13 @@ pub fn gen_typed_query(rng: &mut Rng) -> TypedQuery {
         // one HAVING in twelve has a bare aggregate as a condition or as an operand of AND / OR (aggregates that create an
         // entry in every group, so that no group is invisible — D10 — and the condition is evaluated on every group)
         let bare = Having::Bare(rng.pick(&[AggK::Sum(V), AggK::Max(W), AggK::Min(V), AggK::CountStar, AggK::Avg(V)]).clone());
-        Some(match if rng.chance(1, 12) { 8 + rng.below(3) } else { rng.below(8) } {
+        // one HAVING in six compares an INTERVAL aggregate (sub-second `D`, or the whole-second column) with an interval
+        // constant at microsecond resolution, of either sign
+        let cmp_iv = Having::CmpIv(rng.pick(&[AggK::Avg(D), AggK::Avg(D), AggK::Sum(D), AggK::Min(D), AggK::Max(D), AggK::Avg(IV), AggK::Sum(IV), AggK::Percentile(D, "0.5")]).clone(),
+            *rng.pick(&[">", ">=", "<", "<=", "=", "!="]), *rng.pick(&[0i64, 334_000, 333_999, -666, -667, 1_002_000, -2_000, 10_000_000, -5_000_000, 500_000, 1, -1]));
+        Some(match if rng.chance(1, 6) { 11 + rng.below(2) } else if rng.chance(1, 12) { 8 + rng.below(3) } else { rng.below(8) } {
+            11 => cmp_iv,
+            12 => Having::And(Box::new(cmp(rng, &a)), Box::new(cmp_iv)),
             8 => bare,
             9 => Having::And(Box::new(cmp(rng, &a)), Box::new(bare)),
             10 => Having::Or(Box::new(bare), Box::new(cmp(rng, &b))),
@@ -314,10 +364,23 @@ pub fn gen_typed_input(rng: &mut Rng, large: bool) -> Vec<String> {
         let r = if large { format!("{}", (x as f64) * 0.25 - 2.0) } else { (*rng.pick(&["0.5", "1.5", "-2.25", "100", "3", "8", "0.25"])).to_owned() };
         let s = if large { format!("s{}", x) } else { (*rng.pick(&["x", "y", "hello", "q q", "10", "", ""])).to_owned() };  // column s: `~` is NULL, the empty field is the empty TEXT
         let b = (*rng.pick(&["true", "false"])).to_owned();
-        let iv = if large { format!("{}:{:02}:{:02}", x / 7, (x * 13) % 60, (x * 29) % 60) } else { (*rng.pick(&["0:00:10", "1:02:03", "0:30:00", "2:00:00", "10:00:01", "0:00:00", "0:00:10", "2:00:00", "1000000:00:00", "2500000:30:00"])).to_owned() };  // the last two: a few of them sum to more than 2^63 ns (still far inside chrono's range)
+        // intervals: whole seconds of EITHER sign (each part of `h:m:s` may carry its own sign); "1000000:00:00" and
+        // "±2500000:30:00": a few of them sum to more than 2^63 ns in magnitude (still far inside chrono's range)
+        let iv = if large { format!("{}{}:{:02}:{:02}", if x % 5 == 3 { "-" } else { "" }, x / 7, (x * 13) % 60, (x * 29) % 60) }
+            else { (*rng.pick(&["0:00:10", "1:02:03", "0:30:00", "2:00:00", "10:00:01", "0:00:00", "0:00:10", "2:00:00", "1000000:00:00", "2500000:30:00",
+                "-1:02:03", "0:00:-05", "-0:30:00", "-2500000:30:00", "0:-01:00", "-0:00:01"])).to_owned() };
         let y = rng.below(if large { pool } else { 6 }) as i64;
-        let ts = format!("{}-{:02}-{:02} {:02}:{:02}:{:02}", 1999 + y % 3 * 10, 1 + y % 12, 1 + (y * 5) % 28, y % 24, (y * 7) % 60, (y * 11) % 60);
-        let mut f: Vec<String> = vec![keys[ki].to_owned(), v, w, r, s, b, iv, ts];
+        let (yr, mo, da, ho, mi, se) = (1999 + y % 3 * 10, 1 + y % 12, 1 + (y * 5) % 28, y % 24, (y * 7) % 60, (y * 11) % 60);
+        let ts = format!("{}-{:02}-{:02} {:02}:{:02}:{:02}", yr, mo, da, ho, mi, se);
+        // t2 = ts + (whole seconds, microseconds): the derived interval `t2 - ts` is mostly 0 or a sub-second amount of either
+        // sign (1.002 s, −0.002 s, −1 µs, 0.333334 s, …; three rows 1.002 s, 0, 0 average to 0.334 s exactly — D74); one line
+        // in twenty-five is four centuries away (|t2 − ts| ≈ 1.26e19 ns > 2^63 ns)
+        let (dsec, micro): (i64, i64) = if large { ((x % 5) - 2, (x * 37037) % 1_000_000) }
+            else { *rng.pick(&[(0, 0), (0, 0), (0, 0), (0, 0), (1, 2000), (1, 2000), (-1, 998_000), (0, 1), (-1, 999_999), (2, 500_000), (-3, 0), (0, 333_334), (0, 2000), (5, 0), (-1, 1)]) };
+        let se2 = if (0..60).contains(&(se + dsec)) { se + dsec } else { se };
+        let yr2 = if rng.chance(1, 25) { yr + *rng.pick(&[400i64, -400]) } else { yr };
+        let t2 = format!("{}-{:02}-{:02} {:02}:{:02}:{:02}.{:06}", yr2, mo, da, ho, mi, se2, micro);
+        let mut f: Vec<String> = vec![keys[ki].to_owned(), v, w, r, s, b, iv, ts, t2];
         for c in 1..NCOLS { if rng.chance(nullp[ki][c], 100) { f[c] = if c == S { "~".to_owned() } else { String::new() }; } }
         rows.push(Ok((ki, f)));
     }
@@ -368,12 +431,16 @@ fn cmp_key(a: &[Value], b: &[Value]) -> Ordering {
 }
 
 fn col_type(c: usize) -> ValueType {
-    match c { K | S => ValueType::String, V | W => ValueType::Int, R => ValueType::Float, B => ValueType::Bool, IV => ValueType::Interval, _ => ValueType::Timestamp }
+    match c { K | S => ValueType::String, V | W => ValueType::Int, R => ValueType::Float, B => ValueType::Bool, IV | D => ValueType::Interval, _ => ValueType::Timestamp }
 }
 
 /// the aggregate over the argument values of one group (arrival order, NULLs included); `None` = the sentence does not
 /// fix the value (never the case for the typed statements generated here)
-fn ref_aggregate(a: &AggK, rows: &[&Vec<Value>]) -> Value {
+fn ref_aggregate(a: &AggK, rows: &[&Vec<Value>]) -> Value { ref_aggregate_r(a, rows, false) }
+/// `away`: an INT / INTERVAL average whose division is not exact is rounded AWAY from zero instead of towards zero — the
+/// other neighbour of the exact quotient (only used to tell a different rounding CHOICE from a wrong quotient)
+fn ref_aggregate_r(a: &AggK, rows: &[&Vec<Value>], away: bool) -> Value {
+    let quot = |s: i128, n: i128| -> i128 { let q = s / n; if away && s % n != 0 { q + s.signum() } else { q } };
     let vals: Vec<Value> = match a.col() { Some(c) => rows.iter().map(|r| r[c].clone()).collect(), None => Vec::new() };
     let nn: Vec<Value> = vals.iter().filter(|v| **v != Value::Null).cloned().collect();
     match a {
@@ -388,7 +455,8 @@ fn ref_aggregate(a: &AggK, rows: &[&Vec<Value>]) -> Value {
             if nn.is_empty() { return Value::Null; }
             match &nn[0] {
                 Value::Int(_) => Value::Int(nn.iter().map(|v| if let Value::Int(x) = v { *x } else { 0 }).sum()),
-                Value::Interval(_) => Value::Interval(nn.iter().fold(sqlgrep::model::IntervalType::zero(), |acc, v| if let Value::Interval(x) = v { acc + *x } else { acc })),
+                // the exact total of nanoseconds (generated totals are far inside chrono's range)
+                Value::Interval(_) => Value::Interval(iv_from_ns(nn.iter().map(|v| if let Value::Interval(x) = v { iv_ns(x) } else { 0 }).sum::<i128>())),
                 _ => Value::Float(Float(nn.iter().map(|v| if let Value::Float(x) = v { x.0 } else { 0.0 }).sum())),
             }
         }
@@ -396,9 +464,11 @@ fn ref_aggregate(a: &AggK, rows: &[&Vec<Value>]) -> Value {
             if nn.is_empty() { return Value::Null; }
             match &nn[0] {
                 // CODE-CHOICE (`code_choice`): the INT average truncates towards zero (the sentence is silent; as the code does)
-                Value::Int(_) => Value::Int(nn.iter().map(|v| if let Value::Int(x) = v { *x } else { 0 }).sum::<i64>() / nn.len() as i64),
-                // the INTERVAL average is the total divided by the count, truncated to the nanosecond
-                Value::Interval(_) => Value::Interval(nn.iter().fold(sqlgrep::model::IntervalType::zero(), |acc, v| if let Value::Interval(x) = v { acc + *x } else { acc }) / nn.len() as i32),
+                Value::Int(_) => Value::Int(quot(nn.iter().map(|v| if let Value::Int(x) = v { *x as i128 } else { 0 }).sum::<i128>(), nn.len() as i128) as i64),
+                // the INTERVAL average: the EXACT total of nanoseconds (i128) divided by the count; CODE-CHOICE: truncated
+                // towards zero to the nanosecond (Rust's integer `/`). Independent of chrono's `TimeDelta / i32`, which divides
+                // seconds and nanoseconds apart (finding D74: 1.002 s / 3 was 0.333999999 s; repaired in /repo ae3273b)
+                Value::Interval(_) => Value::Interval(iv_from_ns(quot(nn.iter().map(|v| if let Value::Interval(x) = v { iv_ns(x) } else { 0 }).sum::<i128>(), nn.len() as i128))),
                 _ => Value::Float(Float(nn.iter().map(|v| if let Value::Float(x) = v { x.0 } else { 0.0 }).sum::<f64>() / nn.len() as f64)),
             }
         }
@@ -518,12 +588,20 @@ fn code_choice(a: &AggK) -> Option<&'static str> {
 }
 /// `Some(choice)` when the two tables have the same shape and every differing cell belongs to a select-list item that is
 /// one of the code's choices (the first such item names the class)
-fn differs_only_in_code_choices(q: &TypedQuery, got: &[Vec<Value>], want: &[Vec<Value>]) -> Option<&'static str> {
+fn differs_only_in_code_choices(q: &TypedQuery, got: &[Vec<Value>], want: &[Vec<Value>], away: &[Vec<Value>]) -> Option<&'static str> {
     if got.len() != want.len() || got.iter().zip(want).any(|(r, t)| r.len() != t.len() || r.len() != q.items.len()) { return None; }
     let mut found = None;
-    for (r, t) in got.iter().zip(want) {
+    for (ri, (r, t)) in got.iter().zip(want).enumerate() {
         for (i, (x, y)) in r.iter().zip(t).enumerate() {
             if cells_match(x, y) && (!exact_cell(&q.items[i]) || bits_equal(x, y)) { continue; }
+            // an INT / INTERVAL average: the CHOICE is which neighbour of the exact quotient is shown when the count does not
+            // divide the total; a cell that is neither neighbour (or differs although the division is exact) is a wrong
+            // quotient (finding D74, repaired: seconds and nanoseconds were divided apart), not another choice
+            if let Item::Agg(AggK::Avg(c), _) = &q.items[i] {
+                if matches!(col_type(*c), ValueType::Int | ValueType::Interval) && away.get(ri).and_then(|a| a.get(i)) != Some(x) {
+                    found.get_or_insert("average-is-not-the-total-divided-by-the-count"); continue;
+                }
+            }
             // an INT VARIANCE / STDDEV cell that agrees up to rounding but not bit for bit is not a matter of the code's CHOICE
             // (population, not sample): given that choice the textbook definition fixes the cell (D72, repaired)
             if cells_match(x, y) && exact_cell(&q.items[i]) { found.get_or_insert("int-variance-is-not-the-rounded-exact-quotient"); continue; }
@@ -538,6 +616,8 @@ struct RefOut {
     /// overflow or no value), so nothing is demanded
     undecided: bool,
     rows: Vec<Vec<Value>>,
+    /// `rows` with every inexact INT / INTERVAL average rounded away from zero (see `ref_aggregate_r`; wrapped averages as in `rows`)
+    rows_away: Vec<Vec<Value>>,
     /// the table finding D10 predicts: `rows` without exactly the groups in which no aggregate of the statement creates an
     /// entry (HAVING applied to the groups that are left; same columns, same order)
     rows_d10: Vec<Vec<Value>>,
@@ -572,10 +652,10 @@ fn reference(q: &TypedQuery, admitted: &[Vec<Value>]) -> RefOut {
         if !keys.iter().any(|x| cmp_key(x, &k) == Ordering::Equal) { keys.push(k); }
     }
     keys.sort_by(|a, b| cmp_key(a, b));
-    let mut out = RefOut { undecided: false, rows: Vec::new(), rows_d10: Vec::new(), d10: false, d15: false, cond_error };
+    let mut out = RefOut { undecided: false, rows: Vec::new(), rows_away: Vec::new(), rows_d10: Vec::new(), d10: false, d15: false, cond_error };
     let mut all_aggs: Vec<&AggK> = q.items.iter().filter_map(|it| match it { Item::Agg(a, _) => Some(a), _ => None }).collect();
     if let Some(h) = &q.having { h.aggs(&mut all_aggs); }
-    out.undecided = all_aggs.iter().any(|a| matches!(a, AggK::Stddev(c, _) if *c == IV));
+    out.undecided = all_aggs.iter().any(|a| matches!(a, AggK::Stddev(c, _) if col_type(*c) == ValueType::Interval));
     for k in &keys {
         let g: Vec<&Vec<Value>> = passing.iter().filter(|r| cmp_key(&key_of(r), k) == Ordering::Equal).cloned().collect();
         let visible = all_aggs.iter().any(|a| creates_entry(a, &g));
@@ -589,6 +669,7 @@ fn reference(q: &TypedQuery, admitted: &[Vec<Value>]) -> RefOut {
             Item::Agg(a, wrap) => apply_wrap(ref_aggregate(a, &g), wrap),
         }).collect();
         if visible { out.rows_d10.push(row.clone()); }
+        out.rows_away.push(q.items.iter().zip(row.iter()).map(|(it, v)| match it { Item::Agg(a @ AggK::Avg(_), None) => ref_aggregate_r(a, &g, true), _ => v.clone() }).collect());
         out.rows.push(row);
     }
     out
@@ -601,6 +682,117 @@ fn typed_tag(q: &TypedQuery, outcome: &str, nrows: usize, r: &RefOut) -> String 
     // `code-choice1`: the select list has a cell whose value is a choice of the code the sentence does not fix (see `code_choice`)
     let cc = q.items.iter().any(|it| matches!(it, Item::Agg(a, _) if code_choice(a).is_some()));
     format!("typed:{}|g{}|h{}|w{}|{}|rows{}|d10{}|d15{}|code-choice{}", names.join(","), q.group.len(), q.having.is_some() as u8, q.wher.is_some() as u8, outcome, nrows.min(3), r.d10 as u8, r.d15 as u8, cc as u8)
+}
+
+// ---------- REAL VARIANCE / STDDEV against the exact variance (finding D76, open) ----------
+
+/// The population variance of finite REALs computed EXACTLY: every REAL is an integer multiple of a power of two; with the
+/// values scaled to integers `a_i` (common exponent `emin`) and shifted by the first (a variance does not change under a
+/// shift — exact in rationals) the variance is `(n·Σd² − (Σd)²) / n² · 4^emin`, numerator and denominator formed in `i128`
+/// with checked operations. Returned as the REAL nearest to within two roundings (conversion of the numerator, one division;
+/// the power of two is exact). `None`: a value is not finite or the integers do not fit (then the oracle abstains).
+pub fn exact_real_variance(xs: &[f64]) -> Option<f64> {
+    if xs.is_empty() || xs.iter().any(|x| !x.is_finite()) { return None; }
+    let parts: Vec<(i128, i32)> = xs.iter().map(|x| {
+        let b = x.to_bits();
+        let e = ((b >> 52) & 0x7ff) as i32;
+        let m = (b & ((1u64 << 52) - 1)) as i128;
+        let (m, e) = if e == 0 { (m, -1074) } else { (m | (1i128 << 52), e - 1075) };
+        (if b >> 63 == 1 { -m } else { m }, e)
+    }).collect();
+    let emin = parts.iter().filter(|(m, _)| *m != 0).map(|(_, e)| *e).min().unwrap_or(0);
+    let mut a: Vec<i128> = Vec::new();
+    for (m, e) in &parts {
+        if *m == 0 { a.push(0); continue; }
+        let sh = (*e - emin) as u32;
+        if sh > 60 { return None; }
+        a.push(m.checked_mul(1i128 << sh)?);
+    }
+    let n = a.len() as i128;
+    let (mut sd, mut sq) = (0i128, 0i128);
+    for x in &a {
+        let d = x.checked_sub(a[0])?;
+        sd = sd.checked_add(d)?;
+        sq = sq.checked_add(d.checked_mul(d)?)?;
+    }
+    let num = n.checked_mul(sq)?.checked_sub(sd.checked_mul(sd)?)?;
+    if 2 * emin < -1000 || 2 * emin > 1000 { return None; }
+    Some(num as f64 / (n * n) as f64 * 2f64.powi(2 * emin))
+}
+
+/// what the CODE computes for REAL arguments (finding D76 predicts exactly this cell): running REAL sums of `x` and `x·x` in
+/// arrival order from `0.0`, then `(Σx² − (Σx)²/n)/n` in REAL arithmetic, a negative result replaced by `0.0`
+pub fn onepass_real_variance(xs: &[f64]) -> f64 {
+    let (mut s, mut q) = (0.0f64, 0.0f64);
+    for x in xs { s += *x; q += *x * *x; }
+    let n = xs.len() as f64;
+    let v = (q - (s * s) / n) / n;
+    if v < 0.0 { 0.0 } else { v }
+}
+
+/// the verdict on a (VARIANCE, STDDEV) pair of cells over the REAL values `xs`: `Ok` = both within a relative 1e-9 of the exact
+/// variance / its square root; `Err(true)` = not within, and bit for bit what the one-pass formula gives (finding D76);
+/// `Err(false)` = anything else; `None` = the exact variance is not available (the oracle abstains)
+pub fn judge_real_variance(xs: &[f64], got_var: f64, got_sd: f64) -> Option<Result<(), bool>> {
+    let exact = exact_real_variance(xs)?;
+    let within = |g: f64, e: f64| g == e || (g - e).abs() <= 1e-9 * e.abs();
+    if within(got_var, exact) && within(got_sd, exact.sqrt()) { return Some(Ok(())); }
+    let p = onepass_real_variance(xs);
+    Some(Err(got_var.to_bits() == p.to_bits() && got_sd.to_bits() == p.sqrt().to_bits()))
+}
+
+/// one typed statement over one input: the implementation's table (ExecutionEngine, batch configuration) against the
+/// independent reference, classification of a deviation, and the same case through FileExecutor for the Lean model
+fn typed_case(run: &mut Run, table: &sqlgrep::data_model::TableDefinition, q: &TypedQuery, lines: &[String], stream: &str) {
+    let text = q.sql();
+    let desc = format!("defs={} query={} input={:?}", C04_DEF, text, lines);
+    let prepared = match prepare(C04_DEF, &text) { Ok(p) => p, Err(e) => { run.count(&format!("typed-rejected:{}", e.split(':').next().unwrap_or(""))); return; } };
+    let admitted: Vec<Vec<Value>> = lines.iter().map(|l| table.extract(l).columns).filter(|r| r.iter().any(|v| *v != Value::Null)).map(with_derived).collect();
+    let expected = reference(q, &admitted);
+    let got = run_engine_batch(C04_DEF, &text, &lines);
+    run.oracle_checks += 1;
+    let (outcome, nrows) = match &got {
+        _ if expected.undecided => ("undecided", 0),
+        RowsOutcome::Error(_) if expected.cond_error => ("cond-err", 0),
+        RowsOutcome::Rows { rows, .. } if expected.cond_error => {
+            // no open finding predicts a table here: a WHERE error precedes every group, and a bare HAVING aggregate is one
+            // that creates an entry in every group (no group is invisible, D10)
+            run.fail(desc.clone(), "D69:condition-type-mismatch-not-reported", format!("WHERE on some row / HAVING on some group is neither BOOLEAN nor NULL: an error must be reported, but the implementation printed {:?}", rows));
+            ("ok", rows.len())
+        }
+        RowsOutcome::Rows { rows, .. } => {
+            if !tables_match_q(q, rows, &expected.rows) {
+                // known finding D10 only if the table is EXACTLY the predicted one: the reference table without the
+                // groups in which no aggregate creates an entry (and no ARRAY_AGG starts with NULL: D15 predicts an
+                // error, so a table is then not what any finding predicts)
+                let class = if expected.d10 && !expected.d15 && tables_match_q(q, rows, &expected.rows_d10) { "D10:group-without-value-entry".to_owned() }
+                    else if let Some(choice) = differs_only_in_code_choices(q, rows, &expected.rows, &expected.rows_away) {
+                        if choice.starts_with("int-variance") || choice.starts_with("average-is-not") { choice.to_owned() } else { format!("code-choice:{}-cell-differs-from-reference", choice) }
+                    }
+                    else { "aggregate-table-differs-from-reference".to_owned() };
+                let note = if expected.d15 { " (finding D15 predicts the error `Cannot create array of null type` here)".to_owned() } else if expected.d10 { format!(" (finding D10 predicts {:?})", expected.rows_d10) } else { String::new() };
+                run.fail(desc.clone(), &class, format!("implementation table {:?} but the rows of each group give {:?}{}", rows, expected.rows, note));
+            }
+            ("ok", rows.len())
+        }
+        RowsOutcome::Error(e) => {
+            // known finding D15 only if the error is EXACTLY `ExecutionError::CannotCreateArrayOfNullType`
+            let class = if expected.d15 && e == D15_ERROR { "D15:array_agg-first-value-null" } else { "aggregate-error-on-typed-statement" };
+            run.fail(desc.clone(), class, format!("implementation reports `{}` but the rows of each group give {:?}", e, expected.rows));
+            ("err", 0)
+        }
+        RowsOutcome::Panic(msg) => {
+            run.fail(desc.clone(), "panic:aggregate", msg.clone());
+            ("panic", 0)
+        }
+    };
+    run.count(&format!("{}:{}", stream, outcome));
+    // the same case through FileExecutor for the correspondence with the model (and the Lean specification)
+    let files = vec![join_lines(&lines)];
+    let result = run_files(&prepared, &files);
+    if let Some(case) = batch_case(&prepared, b"", &files, None) {
+        run.case_with_desc(case, result.wire(), typed_tag(q, outcome, nrows, &expected).replacen("typed", stream, 1), desc);
+    }
 }
 
 pub fn run(p: &Params) -> Run {
@@ -671,57 +863,31 @@ pub fn run(p: &Params) -> Run {
     let table = tables.get("t").expect("table t");
     for _ in 0..m {
         let q = gen_typed_query(&mut rng);
-        let text = q.sql();
         let large = rng.chance(1, 12);
         let lines = gen_typed_input(&mut rng, large);
-        let desc = format!("defs={} query={} input={:?}", C04_DEF, text, lines);
-        let prepared = match prepare(C04_DEF, &text) { Ok(p) => p, Err(e) => { run.count(&format!("typed-rejected:{}", e.split(':').next().unwrap_or(""))); continue; } };
-        let admitted: Vec<Vec<Value>> = lines.iter().map(|l| table.extract(l).columns).filter(|r| r.iter().any(|v| *v != Value::Null)).collect();
-        let expected = reference(&q, &admitted);
-        let got = run_engine_batch(C04_DEF, &text, &lines);
-        run.oracle_checks += 1;
-        let (outcome, nrows) = match &got {
-            _ if expected.undecided => ("undecided", 0),
-            RowsOutcome::Error(_) if expected.cond_error => ("cond-err", 0),
-            RowsOutcome::Rows { rows, .. } if expected.cond_error => {
-                // no open finding predicts a table here: a WHERE error precedes every group, and a bare HAVING aggregate is one
-                // that creates an entry in every group (no group is invisible, D10)
-                run.fail(desc.clone(), "D69:condition-type-mismatch-not-reported", format!("WHERE on some row / HAVING on some group is neither BOOLEAN nor NULL: an error must be reported, but the implementation printed {:?}", rows));
-                ("ok", rows.len())
-            }
-            RowsOutcome::Rows { rows, .. } => {
-                if !tables_match_q(&q, rows, &expected.rows) {
-                    // known finding D10 only if the table is EXACTLY the predicted one: the reference table without the
-                    // groups in which no aggregate creates an entry (and no ARRAY_AGG starts with NULL: D15 predicts an
-                    // error, so a table is then not what any finding predicts)
-                    let class = if expected.d10 && !expected.d15 && tables_match_q(&q, rows, &expected.rows_d10) { "D10:group-without-value-entry".to_owned() }
-                        else if let Some(choice) = differs_only_in_code_choices(&q, rows, &expected.rows) {
-                            if choice.starts_with("int-variance") { choice.to_owned() } else { format!("code-choice:{}-cell-differs-from-reference", choice) }
-                        }
-                        else { "aggregate-table-differs-from-reference".to_owned() };
-                    let note = if expected.d15 { " (finding D15 predicts the error `Cannot create array of null type` here)".to_owned() } else if expected.d10 { format!(" (finding D10 predicts {:?})", expected.rows_d10) } else { String::new() };
-                    run.fail(desc.clone(), &class, format!("implementation table {:?} but the rows of each group give {:?}{}", rows, expected.rows, note));
-                }
-                ("ok", rows.len())
-            }
-            RowsOutcome::Error(e) => {
-                // known finding D15 only if the error is EXACTLY `ExecutionError::CannotCreateArrayOfNullType`
-                let class = if expected.d15 && e == D15_ERROR { "D15:array_agg-first-value-null" } else { "aggregate-error-on-typed-statement" };
-                run.fail(desc.clone(), class, format!("implementation reports `{}` but the rows of each group give {:?}", e, expected.rows));
-                ("err", 0)
-            }
-            RowsOutcome::Panic(msg) => {
-                run.fail(desc.clone(), "panic:aggregate", msg.clone());
-                ("panic", 0)
-            }
-        };
-        run.count(&format!("typed:{}", outcome));
-        // the same case through FileExecutor for the correspondence with the model (and the Lean specification)
-        let files = vec![join_lines(&lines)];
-        let result = run_files(&prepared, &files);
-        if let Some(case) = batch_case(&prepared, b"", &files, None) {
-            run.case_with_desc(case, result.wire(), typed_tag(&q, outcome, nrows, &expected), desc);
-        }
+        typed_case(&mut run, table, &q, &lines, "typed");
+    }
+    // ---- stream 2b: AVG / SUM / MIN / MAX / PERCENTILE / HAVING over SUB-SECOND intervals of either sign (finding D74, repaired) ----
+    // 1-7 rows in one or two groups whose `t2 - ts` is a handful of microsecond amounts (many zeros, so that the count does not
+    // divide the total: 1.002 s, 0, 0), sometimes four centuries; the reference divides the exact total of nanoseconds.
+    for _ in 0..p.n(260, 8000) {
+        let grouped = rng.chance(1, 3);
+        let mut items = vec![Item::Agg(AggK::Avg(D), None)];
+        for _ in 0..rng.below(3) { items.push(Item::Agg(rng.pick(&[AggK::Sum(D), AggK::Min(D), AggK::Max(D), AggK::CountStar, AggK::Percentile(D, "0.5"), AggK::Avg(IV), AggK::Sum(IV), AggK::ArrayAgg(D), AggK::Count(T2)]).clone(), None)); }
+        if grouped { items.insert(0, Item::Key(0)); }
+        let having = if rng.chance(1, 3) {
+            Some(Having::CmpIv(rng.pick(&[AggK::Avg(D), AggK::Avg(D), AggK::Sum(D), AggK::Min(D)]).clone(), *rng.pick(&[">", ">=", "<", "<=", "=", "!="]), *rng.pick(&[0i64, 334_000, 333_999, -666, -667, 1_002_000, -2_000, 1, -1, 500_000])))
+        } else { None };
+        let q = TypedQuery { group: if grouped { vec![K] } else { vec![] }, items, wher: if rng.chance(1, 5) { Some(Pred::VPos) } else { None }, having };
+        let n = 1 + rng.below(7);
+        let far = rng.chance(1, 10);
+        let lines: Vec<String> = (0..n).map(|_| {
+            let (dsec, micro): (i64, i64) = *rng.pick(&[(0, 0), (0, 0), (0, 0), (1, 2000), (-1, 998_000), (0, 1), (-1, 999_999), (0, 333_334), (2, 500_000), (-2, 0), (0, 2000), (-1, 1), (7, 777_777)]);
+            let yr = if far && rng.chance(1, 2) { *rng.pick(&[2400i64, 1600]) } else { 2000 };
+            let t2 = if rng.chance(1, 9) { String::new() } else { format!("{}-03-04 05:06:{:02}.{:06}", yr, 30 + dsec, micro) };
+            format!("{};{};;;~;;{};2000-03-04 05:06:30;{}", if grouped { *rng.pick(&["a", "b"]) } else { "a" }, rng.range(-1, 3), rng.pick(&["0:00:01", "-0:00:02", "0:00:00", "", "0:00:-01"]), t2)
+        }).collect();
+        typed_case(&mut run, table, &q, &lines, "subsecond-interval");
     }
     // ---- stream 3: VARIANCE / STDDEV of INT values of large magnitude (finding D72, repaired) ----
     // 1-6 values around ± a large base (Σx² up to 8.6e18 still fits an i64): equal values, tiny spreads on a huge mean, and
@@ -741,7 +907,7 @@ pub fn run(p: &Params) -> Run {
         let lines: Vec<String> = vals.iter().map(|v| format!("a;{};;;~;;;", v)).collect();
         let text = "SELECT VARIANCE(v), STDDEV(v), COUNT(*) FROM t";
         let desc = format!("defs={} query={} input={:?}", C04_DEF, text, lines);
-        let rows: Vec<Vec<Value>> = vals.iter().map(|v| { let mut r = vec![Value::Null; NCOLS]; r[V] = Value::Int(*v); r }).collect();
+        let rows: Vec<Vec<Value>> = vals.iter().map(|v| { let mut r = vec![Value::Null; NCOLS + 1]; r[V] = Value::Int(*v); r }).collect();
         let refs: Vec<&Vec<Value>> = rows.iter().collect();
         let want = vec![vec![ref_aggregate(&AggK::Stddev(V, true), &refs), ref_aggregate(&AggK::Stddev(V, false), &refs), Value::Int(n as i64)]];
         run.oracle_checks += 1;
@@ -765,6 +931,61 @@ pub fn run(p: &Params) -> Run {
             }
         }
     }
+    // ---- stream 3b: VARIANCE / STDDEV of REAL values with a large mean and a small spread (finding D76, OPEN) ----
+    // For REAL arguments the cell is the one-pass formula in REAL arithmetic: with values around 1e6 … 1e9 whose spread is a few
+    // units or tenths, Σx² and (Σx)²/n agree in their leading ~16 digits and the subtraction leaves rounding noise. The oracle is
+    // the EXACT variance (`exact_real_variance`, integers) with a relative tolerance of 1e-9; a cell outside it is the known finding
+    // D76 only if it is bit for bit the one-pass formula's value (`judge_real_variance`), anything else is a violation. Small
+    // means (the formula is accurate there) exercise the passing branch. The first two cases are the documented witnesses.
+    let m3b = p.n(160, 4000);
+    for i in 0..m3b {
+        let texts: Vec<String> = match i {
+            0 => vec!["100000001.0".to_owned(), "100000002.0".to_owned(), "100000003.0".to_owned()],
+            1 => vec!["1000000.1".to_owned(), "1000000.2".to_owned(), "1000000.3".to_owned()],
+            _ => {
+                let n = 2 + rng.below(5);
+                let base: i64 = *rng.pick(&[1_000_000i64, 10_000_000, 100_000_000, 1_000_000_000, 123_456_789, 500_000_000, 10, 0, 3, -100_000_000, 65_536]);
+                let shape = rng.below(4); // 0: equal values, 1: integers base+k, 2: tenths, 3: quarters / halves (exactly representable)
+                let k0 = rng.below(10) as i64;
+                (0..n).map(|_| match shape {
+                    0 => format!("{}.{}", base, k0),
+                    1 => format!("{}.0", base + rng.range(0, 10)),
+                    2 => format!("{}.{}", base, rng.below(10)),
+                    _ => format!("{}.{}", base + rng.range(0, 3), rng.pick(&["0", "25", "5", "75"])),
+                }).collect()
+            }
+        };
+        let xs: Vec<f64> = texts.iter().map(|t| t.parse::<f64>().unwrap()).collect();
+        let lines: Vec<String> = texts.iter().map(|t| format!("a;;;{};~;;;", t)).collect();
+        let text = "SELECT VARIANCE(r), STDDEV(r), COUNT(*) FROM t";
+        let desc = format!("defs={} query={} input={:?}", C04_DEF, text, lines);
+        run.oracle_checks += 1;
+        let outcome = match run_engine_batch(C04_DEF, text, &lines) {
+            RowsOutcome::Rows { rows: got, .. } => match got.first().map(|r| r.as_slice()) {
+                Some([Value::Float(v), Value::Float(sd), Value::Int(c)]) if got.len() == 1 && *c == xs.len() as i64 => match judge_real_variance(&xs, v.0, sd.0) {
+                    Some(Ok(())) => "ok",
+                    Some(Err(known)) => {
+                        let exact = exact_real_variance(&xs).unwrap();
+                        run.fail(desc.clone(), if known { "D76:real-variance-cancellation" } else { "real-variance-differs-from-exact-variance" },
+                            format!("VARIANCE = {:?}, STDDEV = {:?}; the exact variance of the values is {:?} (square root {:?}); the one-pass formula (Σx² − (Σx)²/n)/n in REAL arithmetic gives {:?}", v.0, sd.0, exact, exact.sqrt(), onepass_real_variance(&xs)));
+                        if known { "d76" } else { "differs" }
+                    }
+                    None => { run.count("oracle-abstains:real-variance"); "abstain" }
+                },
+                _ => { run.fail(desc.clone(), "aggregate-table-differs-from-reference", format!("implementation table {:?}: one row (VARIANCE, STDDEV, {}) expected", got, xs.len())); "shape" }
+            },
+            RowsOutcome::Error(e) => { run.fail(desc.clone(), "aggregate-error-on-typed-statement", format!("implementation reports `{}`", e)); "err" }
+            RowsOutcome::Panic(msg) => { run.fail(desc.clone(), "panic:aggregate", msg); "panic" }
+        };
+        run.count(&format!("real-variance:{}", outcome));
+        if let Ok(prepared) = prepare(C04_DEF, text) {
+            let files = vec![join_lines(&lines)];
+            let result = run_files(&prepared, &files);
+            if let Some(case) = batch_case(&prepared, b"", &files, None) {
+                run.case_with_desc(case, result.wire(), format!("real-variance|n{}|{}", xs.len().min(3), outcome), desc);
+            }
+        }
+    }
     // ---- stream 4: PERCENTILE with fractions of more than two decimals over large groups ----
     // the rank min(⌊p·n⌋, n − 1) only moves with the third decimal of p once the group is large; values are the distinct numbers
     // 1..n in a shuffled order, so the cell names the rank. (Nearest-rank is the code's choice, see `code_choice`; given the
@@ -778,7 +999,7 @@ pub fn run(p: &Params) -> Run {
         let lines: Vec<String> = vals.iter().map(|v| format!("a;{};;;~;;;", v)).collect();
         let text = format!("SELECT PERCENTILE(v, {}), COUNT(*) FROM t", pt);
         let desc = format!("defs={} query={} input=the numbers 1..{} in a shuffled order, one per line (`a;<v>;;;~;;;`)", C04_DEF, text, n);
-        let rows: Vec<Vec<Value>> = vals.iter().map(|v| { let mut r = vec![Value::Null; NCOLS]; r[V] = Value::Int(*v); r }).collect();
+        let rows: Vec<Vec<Value>> = vals.iter().map(|v| { let mut r = vec![Value::Null; NCOLS + 1]; r[V] = Value::Int(*v); r }).collect();
         let refs: Vec<&Vec<Value>> = rows.iter().collect();
         let want = vec![vec![ref_aggregate(&AggK::Percentile(V, pt), &refs), Value::Int(n as i64)]];
         run.oracle_checks += 1;
